@@ -751,6 +751,27 @@ def powers(ctx, mc):
         ok = verdict == 'ok'
         rep.check(ok, 'R-POW', 'multicomplex.Bicomplex.__pow__', where_of(mc, '__pow__'), fact,
                   'rho^p (cos p theta, sin p theta)', 'p=%s' % p, key='pow regular')
+    # a bicomplex exponent without j-part is the complex number it carries: z ** Bicomplex(p, 0) equals z ** p for a complex p
+    # (both evaluated by the code under analysis; the second is the form judged above)
+    I, models = make_interp(ctx.repo, polar_ufunc, oracle=polar_oracle)
+    models.hooks['np.where'] = lambda m, cond, a=None, b=None: (b if isinstance(cond, Unk) or
+                                                                 (isinstance(cond, Arr) and any(isinstance(v, Unk) for v in cond.items()))
+                                                                 else NotImplemented)
+    models.hooks['np.clip'] = lambda m, a, *args, **kw: a
+    try:
+        pc = Poly.sym('pr') + Poly.const(Z8.I) * Poly.sym('pi_')
+        Z = bic(I, RHO * COS_T, RHO * SIN_T)
+        direct = comps(I.binop(ast.Pow(), Z, pc))
+        wrapped = comps(I.binop(ast.Pow(), Z, bic(I, pc, 0)))
+        same_ = all(repr(drop_branch(a_)) == repr(drop_branch(b_)) for a_, b_ in zip(direct, wrapped))
+        rep.check(same_, 'R-POW', 'multicomplex.Bicomplex.__pow__', where_of(mc, '__pow__'),
+                  {'z ** p': [repr(v)[:120] for v in direct], 'z ** Bicomplex(p, 0)': [repr(v)[:120] for v in wrapped]},
+                  'the same value', 'complex p: z ** Bicomplex(p, 0) against z ** p', key='pow bicomplex exponent')
+    except (AlgebraError, TypeError, AttributeError, AnalysisError) as exc:
+        rep.undecided('R-POW', 'multicomplex.Bicomplex.__pow__', {'cannot_evaluate': str(exc)[:200]}, 'complex p: z ** Bicomplex(p, 0) against z ** p')
+    except InterpRaise as exc:
+        rep.violation('R-POW', 'multicomplex.Bicomplex.__pow__', where_of(mc, '__pow__'), {'raises': exc.exc_name, 'message': exc.msg[:120]},
+                      'the same value', 'complex p: z ** Bicomplex(p, 0) against z ** p', key='pow bicomplex exponent')
     # singular branch formula with formal powers
     I, models = make_interp(ctx.repo, lambda n, x: NotImplemented)
     z1, z2, p = Poly.sym('z1'), Poly.sym('z2'), Poly.sym('p')
